@@ -117,6 +117,18 @@ def main():
         np.random.random(7)
         XB = gB.generate_data(nf, ns, cardinality=card, structure=structure, ensure_rep=ensure, seed=seed)
         XA2 = gA.generate_data(nf, ns, cardinality=card, structure=structure, ensure_rep=ensure, seed=seed)
+        # ... also with random value domains (drawn within the bounds on every call)
+        gR = CC(seed=seed)
+        kwR = dict(cardinality=card, ensure_rep=ensure, seed=seed, random_values=True, low=0, high=card + 20)
+        try:
+            XR1 = gR.generate_data(nf, ns, **kwR)
+            XR2 = gR.generate_data(nf, ns, **kwR)
+            XR3 = CC(seed=seed).generate_data(nf, ns, **kwR)
+            if not (np.array_equal(XR1, XR2) and np.array_equal(XR1, XR3)):
+                h.fail('generate_data.same_seed_same_data', dict(wit, scenario='random_values=True, second call on the same object'),
+                       'the same seed and arguments gave a different data set')
+        except TypeError:
+            pass
         if not (np.array_equal(XA1, X) and np.array_equal(XB, X) and np.array_equal(XA2, X)):
             h.fail('generate_data.same_seed_same_data', dict(wit, scenario='second call on the same object / object built earlier / draws in between'),
                    'the same seed and arguments gave a different data set')
